@@ -60,3 +60,19 @@ Proof.
   simpl. eexists. split; [vm_compute; reflexivity|]. repeat constructor; simpl; intuition discriminate.
 Qed.
 Print Assumptions C01_nonvacuous.
+
+(* regions written as lists may name a well more than once (it then gives, or receives, as often as it is named): the theorems above
+   carry no distinctness hypothesis.  A concrete instance -- the very call on which the implementation used to create material (D42):
+   well 0 of the first plate listed twice as the source, wells 0 and 1 of the second plate as destinations, 10 uL each *)
+Example C01_repeated_well :
+  let w := {| sid := 1; knd := Liquid; mw := 18; dens := 1; act := 1 |} in
+  let well v := {| cname := 0; cont := [(w, v)]; vol := v * 18 / 1000; maxv := Some 1000 |} in
+  let p1 := {| pname := 1; nrows := 1; ncols := 2; wells := [well 5000; well 5000] |} in
+  let p2 := {| pname := 2; nrows := 1; ncols := 2; wells := [well 0; well 0] |} in
+  exists a b, p_to_p default_cfg p1 (RList [(0, 0); (0, 0)]%nat) p2 (RList [(0, 0); (0, 1)]%nat) {| qval := 10; qpfx := Pu; qbase := BL |} = Ok (a, b) /\
+    wsum (cget w) (wells a) + wsum (cget w) (wells b) == wsum (cget w) (wells p1) + wsum (cget w) (wells p2) /\
+    cget w (nth 0%nat (wells a) (well 0)) == cget w (well 5000) - 2 * (10 * 1000 / 18).
+Proof.
+  cbv zeta. eexists. eexists. split; [vm_compute; reflexivity|]. split; vm_compute; reflexivity.
+Qed.
+Print Assumptions C01_repeated_well.
